@@ -49,6 +49,15 @@ def c01_probes() -> list[Item]:
                    ("PUSH", 32), ("PUSH", 0x60), ("PUSH", 0), ("PUSH", 0), ("PUSH", CALLEE + 1), ("PUSH", 0xFFFFF), "STATICCALL", ("PUSH", 0x80), "MSTORE",
                    ("PUSH", 0x60), ("PUSH", 0x40), "RETURN"],
                   accounts={CALLEE: tw, CALLEE + 1: relay}))
+    # the return-data buffer after a creation (EIP-211): the revert data of the init code if it reverted, empty if it succeeded
+    init_rev = assemble([("PUSH", 0xBAD), ("PUSH", 0), "MSTORE", ("PUSH", 32), ("PUSH", 0), "REVERT"])
+    init_ok = assemble([("PUSH", 0), ("PUSH", 0), "RETURN"])
+    for nm, init in (("reverted", init_rev), ("succeeded", init_ok)):
+        out.append(_p(f"returndata-after-{nm}-create",
+                      [("PUSHN", len(init), int.from_bytes(init, "big")), ("PUSH", 0), "MSTORE",
+                       ("PUSH", len(init)), ("PUSH", 32 - len(init)), ("PUSH", 0), "CREATE", ("PUSH", 0x40), "MSTORE",
+                       "RETURNDATASIZE", ("PUSH", 0x60), "MSTORE", "RETURNDATASIZE", ("PUSH", 0), ("PUSH", 0x80), "RETURNDATACOPY",
+                       ("PUSH", 0x80), ("PUSH", 0x40), "RETURN"]))
     # EXTCODECOPY from an account without code writes `size` zero bytes over dirty memory
     out.append(_p("extcodecopy-no-code",
                   [("PUSHN", 32, (1 << 256) - 1), ("PUSH", 0), "MSTORE", ("PUSH", 32), ("PUSH", 5), ("PUSH", 0), ("PUSH", 0x9999), "EXTCODECOPY", ("PUSH", 0), "MLOAD"] + RET))
